@@ -87,16 +87,17 @@ type WorkerOpts struct {
 	ReplayDir string
 	Known     []KnownFinding
 	MaxViol   int
+	Spec      string
 	MinimizeS float64
 }
 
 type agg struct {
-	st     WorkerStats
-	hashes map[uint64]struct{}
-	scheds map[uint64]struct{}
-	opts   *WorkerOpts
-	start  time.Time
-	nviol  int
+	st      WorkerStats
+	hashes  map[uint64]struct{}
+	scheds  map[uint64]struct{}
+	opts    *WorkerOpts
+	start   time.Time
+	nviol   int
 	horizon float64
 }
 
@@ -189,7 +190,17 @@ func relevant(vs []Violation, prop string) (rel []Violation, foreign map[string]
 
 // RunWorker is the entry point of a worker process.
 func RunWorker(o *WorkerOpts) *WorkerStats {
-	spec, ok := Props[o.Prop]
+	specID := o.Prop
+	if o.Spec != "" {
+		specID = o.Spec
+	}
+	spec, ok := Props[specID]
+	if ok && o.Spec != "" {
+		// development aid: run another property's engines but report this property's rules
+		cp := *spec
+		cp.ID = o.Prop
+		spec = &cp
+	}
 	if !ok {
 		fmt.Fprintf(os.Stderr, "unknown property %s\n", o.Prop)
 		os.Exit(2)
